@@ -220,7 +220,22 @@ def run(ck):
         # shuffle
         for i in range(len(ks) - 1, 0, -1):
             j = r.below(i + 1); ks[i], ks[j] = ks[j], ks[i]
-        fresh = iter(ks)
+        pool = list(ks)
+        def take(pred=None):
+            for q in pool:
+                if pred is None or pred(q):
+                    pool.remove(q); return q
+            return None
+        class _Fresh:
+            def __next__(self_):
+                q = take()
+                if q is None:
+                    raise StopIteration
+                return q
+        fresh = _Fresh()
+        def vsize(q):
+            hs_, nm_, dn_ = template(q)
+            return hs_ + nm_ + (dn_ + 2 if dn_ else 0)
         voices = [Voice(next(fresh), r.range(1, 5), 0) for _ in range(r.range(2, 4))]
         versions = [(0, list(voices), None)]     # (time, voices, broken)
         events = []
@@ -238,10 +253,24 @@ def run(ck):
                 # ONE edit removes a voice and adds a new one at ANOTHER position: the number of sites stays the same and the
                 # untouched voices keep their relative order but change their index
                 i = r.below(len(cur))
+                bal = None
+                if len(cur) >= 3 and r.chance(1, 2):
+                    # BALANCED variant (response to seeded change C07d): +k words in front of an untouched voice A, the 2k words of the voice
+                    # between A and the next untouched voice B removed: A moves up by k, B moves down by k
+                    cands = [x for x in range(1, len(cur) - 1) if vsize(cur[x].k) % 2 == 0 and vsize(cur[x].k) > 0]
+                    for x in cands:
+                        qk = take(lambda q: vsize(q) * 2 == vsize(cur[x].k))
+                        if qk is not None:
+                            bal = (x, qk); break
+                if bal is not None:
+                    i = bal[0]
                 gone = cur[i]
                 del cur[i]
                 js = [j for j in range(len(cur) + 1) if j != i]
-                nv = Voice(next(fresh), r.range(1, 5), t)
+                if bal is not None:
+                    js = [i - 1]          # directly in front of A = cur[i - 1]
+                    bump("edit_delins_balanced")
+                nv = Voice(bal[1] if bal is not None else next(fresh), r.range(1, 5), t)
                 nv.replaced = gone.k          # the new site may inherit same-shaped cells of the removed one (class F24)
                 oldv = list(versions[-1][1])
                 cur.insert(r.choice(js), nv)
